@@ -134,7 +134,13 @@ def run_async(scn, observers=()):
         res.blocked = err.blocked
         world.log("DEADLOCK", tuple(err.blocked))
     elif isinstance(err, StepCap):
-        res.error = "stepcap"
+        if getattr(err, "spinning", False):
+            # a livelock is reported like a deadlock: nobody makes progress any more
+            res.error = "deadlock"
+            res.blocked = [(n, "spin@" + str(s)) for n, s in err.blocked]
+            world.log("LIVELOCK", tuple(res.blocked))
+        else:
+            res.error = "stepcap"
     res.info["steps"] = loop.nsteps
     res.info["spins"] = loop.spins
     res.info["task_steps"] = {n: t._sim_steps for n, t in loop.caller_tasks.items()}
